@@ -302,8 +302,10 @@ func check(sc scenario, inv []invocation, before, after, caller *tls.Config, exp
 		if caller != nil && iv.tcPtr == caller {
 			return "caller-config-passed-down", "DialFunc received the caller's own *tls.Config (not a clone)"
 		}
-		if sc.RequireECH && iv.list == nil {
-			return "require-ech-violated", fmt.Sprintf("invocation %d (%s) has no ECH config list although RequireECH is set", i, iv.addr)
+		if sc.RequireECH && len(iv.list) == 0 {
+			// (a list of length zero - an empty ech parameter in the record - is no list: crypto/tls happens to fail closed on it,
+			// a DialFunc of the caller's need not)
+			return "require-ech-violated", fmt.Sprintf("invocation %d (%s) has no ECH config list (nil=%v, %d bytes) although RequireECH is set", i, iv.addr, iv.list == nil, len(iv.list))
 		}
 		if _, known := expectHost[iv.addr]; !known {
 			return "unexpected-address", fmt.Sprintf("invocation %d dials %s, which no record of this world produces (expected one of %v)", i, iv.addr, keysOf(expectHost))
